@@ -15,15 +15,16 @@ import (
 // ---------------------------------------------------------------- reference model (counters in enqueue order)
 
 type wmRef struct {
-	out    map[uint64]int // begun minus finished, plain counting (may be negative after a Done without Begin)
-	outc   map[uint64]int // the same, but a Done with nothing outstanding is ignored (clamped at 0)
-	exempt map[uint64]int // begins issued while the mark already stood at or above the index
+	out    map[uint64]int      // begun minus finished, plain counting (may be negative after a Done without Begin)
+	outc   map[uint64]int      // the same, but a Done with nothing outstanding is ignored (clamped at 0)
+	exempt map[uint64]int      // begins issued while the mark was already entitled to stand at or above the index
+	caps   map[uint64][]uint64 // for each exempt begin still outstanding: where the mark may stand at most (the bound at begin time)
 	seen   map[uint64]bool
 	U, L   uint64 // upper / lower bound for DoneUntil (running maxima)
 }
 
 func newWmRef() *wmRef {
-	return &wmRef{out: map[uint64]int{}, outc: map[uint64]int{}, exempt: map[uint64]int{}, seen: map[uint64]bool{}}
+	return &wmRef{out: map[uint64]int{}, outc: map[uint64]int{}, caps: map[uint64][]uint64{}, exempt: map[uint64]int{}, seen: map[uint64]bool{}}
 }
 
 func (r *wmRef) recompute() {
@@ -48,6 +49,16 @@ func (r *wmRef) recompute() {
 			candL = t
 		}
 	}
+	// An index begun while the mark could already stand at or above it does not push the mark back, but the mark
+	// must not ADVANCE any further while that index is unfinished ("never advances to or beyond an index that has been
+	// begun more often than finished"): it may stand where it was entitled to stand when the index began, at most.
+	for _, cs := range r.caps {
+		for _, c := range cs {
+			if candU > c {
+				candU = c
+			}
+		}
+	}
 	if candU > r.U {
 		r.U = candU
 	}
@@ -62,6 +73,7 @@ func (r *wmRef) begin(t uint64) {
 	r.outc[t]++
 	if r.U >= t {
 		r.exempt[t]++
+		r.caps[t] = append(r.caps[t], r.U)
 	}
 	r.recompute()
 }
@@ -77,6 +89,10 @@ func (r *wmRef) done(t uint64) {
 	}
 	if o := max(r.out[t], 0); r.exempt[t] > o {
 		r.exempt[t] = o
+		// the finished begin is taken to be the one that restricts the mark most: keep the largest caps
+		cs := r.caps[t]
+		sort.Slice(cs, func(i, j int) bool { return cs[i] > cs[j] })
+		r.caps[t] = cs[:o]
 	}
 	r.recompute()
 }
